@@ -508,6 +508,10 @@ class ReconRun:
                 if sdump(pure) != sdump(root.a):
                     self.stats['collateral_c01'] += 1
                     break
+                if any(isinstance(w, (ast.With, ast.AsyncWith)) and len(w.items) == 1 and isinstance(w.items[0].context_expr, ast.Tuple)
+                       and w.items[0].optional_vars is None for w in ast.walk(pure)):
+                    # family of C01-K18: a With whose single item is a (parenthesized) Tuple cannot be re-written from its AST
+                    self.flags.add('with_single_tuple_item')
                 muts = []
                 touched = set()
                 orig_stmts = list(pure.body)
